@@ -10,6 +10,7 @@ mod c12;
 mod gen;
 mod seqs;
 mod c19;
+mod c20;
 mod c16;
 mod kmers;
 mod val;
@@ -60,6 +61,7 @@ fn main() {
         "C08" => c08::c08(&mut out, &mut rng, &tier),
         "C05" => c05::c05(&mut out, &mut rng, &tier),
         "C06" => c05::c06_filter(&mut out, &mut rng, &tier),
+        "C20" => c20::c20(&mut out, &mut rng, &tier),
         _ => {
             eprintln!("unknown property {}", prop);
             std::process::exit(2);
